@@ -208,8 +208,12 @@ def run(ctx):
     duplicate_id_headers(ctx, r3, w2j, "C11.R3")
     # fallback form name plumbing
     gdd = ctx.func("pyxform.xls2json_backends:get_definition_data", "C11.R3")
-    stem = [x for x in walk_own(gdd.node) if isinstance(x, ast.Assign) and isinstance(x.targets[0], ast.Name) and x.targets[0].id == "file_path_stem" and "stem" in norm(x.value)]
-    r3.check(len(stem) == 1 and any("file_exists" in g for g in guard_texts(stem[0], stop=gdd.node)), "get_definition_data:file stem", "the fallback name is the file stem, set only when a file was actually read", gdd.loc())
+    # (evaluated in C12.R4 over every input kind: the stem is set exactly when a file was actually read - shared here)
+    from . import c12 as _c12
+    from .c08 import _take as _take11
+    n_before = len(r3.obligations)
+    _take11(r3, _c12.run(ctx), "C12.R4", lambda c: c.startswith("get_definition_data[") and (c.endswith(":stem") or "str naming an existing file" in c))
+    r3.check(len(r3.obligations) - n_before >= 5, "get_definition_data:file stem", "the fallback-name obligations of C12.R4 were evaluated", gdd.loc())
     dtd = ctx.func("pyxform.xls2json_backends:definition_to_dict", "C11.R3")
     r3.check(any(isinstance(c, ast.Call) and call_name(c) == "DefinitionData" and kw(c, "fallback_form_name") is not None and norm(kw(c, "fallback_form_name")) == "definition.file_path_stem"
                  for c in walk_own(dtd.node)), "definition_to_dict:fallback", "the stem is handed to DefinitionData.fallback_form_name", dtd.loc())
